@@ -31,6 +31,26 @@ func lastReturnIs(b *ast.BlockStmt, ident string) bool {
 	return ok && len(r.Results) == 1 && src(r.Results[0]) == ident
 }
 
+// bansSender reports whether the block calls s.BanPeer(<the handler's peer>,
+// banman.InvalidBlock) — directly, or inside a same-file unexported helper it
+// calls with `peer` as an argument (callsInlined) — and not in a defer.
+func bansSender(f *ast.File, b *ast.BlockStmt) bool {
+	passesPeer := false
+	for _, c := range calls(b) {
+		for _, a := range c.args {
+			if a == "peer" && !strings.HasPrefix(c.name, "defer ") {
+				passesPeer = true
+			}
+		}
+	}
+	for _, c := range callsInlined(f, b) {
+		if c.name == "s.BanPeer" && len(c.args) == 2 && c.args[1] == "banman.InvalidBlock" && passesPeer {
+			return true
+		}
+	}
+	return false
+}
+
 // extractQuery records the order of the validation steps of GetBlock's
 // response handler and of cfiltersQuery.handleResponse, which failure branches
 // ban, where the cache / persistence calls sit, and the range constants of
@@ -89,7 +109,7 @@ func extractQuery() {
 					}
 					if name != "" {
 						steps = append(steps, name)
-						flags[name+"Bans"] = strings.Contains(body, "s.BanPeer(peer, banman.InvalidBlock)")
+						flags[name+"Bans"] = bansSender(f, v.Body)
 						flags[name+"NoProgress"] = lastReturnIs(v.Body, "noProgress") && v.Else == nil
 						flags[name+"SetsFound"] = strings.Contains(body, "foundBlock")
 					}
